@@ -25,6 +25,7 @@ Inside an extract block the lines are annotation sub-directives:
    requires / ensures / decreases / recommends ... (contract text, spliced between signature and body; E2)
        a trailing `// [label]` names the clause (obligation name)
    @loop N            following lines: invariant/decreases text spliced before the N-th loop body (E3)
+   @block-end <lit>   following lines: ghost text inserted before the closing brace of the block that opens after <lit>
    @loop-end N        following lines: ghost text inserted before the closing brace of the N-th loop's body
    @body              following lines: ghost text inserted right after the body's `{`
    @tail              following lines: ghost text inserted before the body's closing `}` (unit-returning fns)
@@ -525,7 +526,7 @@ def split_opts(s):
 
 def parse_block(lines):
     """Annotation block of an extract directive -> dict"""
-    blk = {"contract": [], "loops": {}, "loopends": {}, "body": [], "tail": [], "before": [], "after": [], "rewrites": [], "sig": []}
+    blk = {"contract": [], "loops": {}, "loopends": {}, "body": [], "tail": [], "before": [], "after": [], "blockends": [], "rewrites": [], "sig": []}
     cur = blk["contract"]
     for ln in lines:
         s = ln.strip()
@@ -543,6 +544,10 @@ def parse_block(lines):
             ent = [s[len("@before "):].strip(), []]
             blk["before"].append(ent)
             cur = ent[1]
+        elif s.startswith("@block-end "):
+            ent = [s[len("@block-end "):].strip(), []]
+            blk["blockends"].append(ent)
+            cur = ent[1]
         elif s.startswith("@after "):
             ent = [s[len("@after "):].strip(), []]
             blk["after"].append(ent)
@@ -550,9 +555,10 @@ def parse_block(lines):
         elif s.startswith("@rewrite ") or s.startswith("@sig "):
             key = "rewrites" if s.startswith("@rewrite ") else "sig"
             body = s.split(" ", 1)[1]
-            if "=>" not in body:
+            sep = "==>>" if "==>>" in body else "=>"
+            if sep not in body:
                 raise ExtractError("bad-template", f"rewrite without => : {s}")
-            a, b = body.split("=>", 1)
+            a, b = body.split(sep, 1)
             blk[key].append({"from": a.strip(), "to": b.strip(), "reason": ""})
             cur = None
         elif s.startswith("@reason "):
@@ -727,6 +733,21 @@ def transform_fn(text, opts, blk, log, what, in_trait_impl):
         ins = "\x01".join(l.rstrip() for l in lines if l.strip())
         body = body[:hits[0].start()] + ins + "\x01" + body[hits[0].start():]
         log.append(f"ghost text inserted before `{lit}`")
+    for lit, lines in blk["blockends"]:
+        # ghost text before the closing brace of the block opened by the first `{` after <literal>
+        check_ghost(lines, what)
+        pat = ws_pattern(lit)
+        mb = mask(body)
+        hits = [h for h in pat.finditer(mask_comments(body)) if mb[h.start()] == body[h.start()]]
+        if len(hits) != 1:
+            raise ExtractError("rewrite-miss", f"{what}: @block-end `{lit}` occurs {len(hits)} times")
+        o = mb.find("{", hits[0].end() - 1)
+        if o < 0:
+            raise ExtractError("rewrite-miss", f"{what}: @block-end `{lit}`: no block follows")
+        e = match_close(mb, o)
+        ins = "\x01".join(l.rstrip() for l in lines if l.strip())
+        body = body[:e] + "\x01" + ins + "\x01" + body[e:]
+        log.append(f"ghost text inserted at the end of the block after `{lit}`")
     for lit, lines in blk["after"]:
         check_ghost(lines, what)
         pat = ws_pattern(lit)
